@@ -53,7 +53,6 @@ func c02World(t *testing.T, p c02Params) rt.Result {
 	out := hz.Run(t, hz.Opts{Seed: p.Seed, HookMode: p.Hook}, func(w *hz.World) {
 		ps := hz.StdPeer("10.0.1.1")
 		ps.LocalAS, ps.RemoteAS = p.LocalAS, p.RemoteAS
-		ps.Hold = 90
 		ps.Passive = p.Dir == "in"
 		ps.Cfg.OnOpen = func(int, netip.Addr, []corebgp.Capability) *corebgp.Notification {
 			if p.Glue {
@@ -61,11 +60,19 @@ func c02World(t *testing.T, p c02Params) rt.Result {
 			}
 			return plugN
 		}
-		s := bring(w, ps, p.Dir, stOpenSent, 0)
+		vr := pickVariety(r, p.Dir)
+		vr.Slow = false
+		if plugN != nil {
+			vr.Reuse = false // the plugin would refuse the setup session too
+		}
+		ps.Hold = vr.LocalHold
+		s := bringV(w, ps, p.Dir, stOpenSent, vr)
 		if s == nil {
 			return
 		}
 		rc := s.rc
+		_, opens0, ss0 := s.mon.Snapshot() // a reused fsm has been through one session already
+		nOpens0, nSess0 := len(opens0), len(ss0)
 		msg := wire.Msg(wire.TypeOpen, body)
 		if p.Glue {
 			eb := make([]byte, 64)
@@ -80,6 +87,7 @@ func c02World(t *testing.T, p c02Params) rt.Result {
 		got := rc.Msgs()[1:]
 		eof, _ := rc.EOF()
 		_, opens, _ := s.mon.Snapshot()
+		opens = opens[nOpens0:]
 		desc := fmt.Sprintf("[%s as %d->%d] OPEN body %s", p.Dir, p.LocalAS, p.RemoteAS, p.Body)
 		if !v.Accept() {
 			if len(opens) != 0 {
@@ -95,7 +103,7 @@ func c02World(t *testing.T, p c02Params) rt.Result {
 			}
 			rc.SendKeepalive()
 			w.Settle()
-			if s.mon.Up() || len(s.mon.Sessions) != 0 {
+			if _, _, ssx := s.mon.Snapshot(); s.mon.Up() || len(ssx) != nSess0 {
 				w.Violate("%s: session reported Established after an unacceptable OPEN", desc)
 			}
 			return
@@ -127,7 +135,7 @@ func c02World(t *testing.T, p c02Params) rt.Result {
 			}
 			rc.SendKeepalive()
 			w.Settle()
-			if len(s.mon.Sessions) != 0 {
+			if _, _, ssx := s.mon.Snapshot(); len(ssx) != nSess0 {
 				w.Violate("%s: session Established although OnOpenMessage returned a NOTIFICATION", desc)
 			}
 			return
@@ -149,7 +157,7 @@ func c02World(t *testing.T, p c02Params) rt.Result {
 			w.Violate("%s: session not Established after the remote's KEEPALIVE (plugin state %s)", desc, s.mon.State())
 		}
 		_, opens, _ = s.mon.Snapshot()
-		if len(opens) != 1 {
+		if opens = opens[nOpens0:]; len(opens) != 1 {
 			w.Violate("%s: OnOpenMessage invoked %d times for one connection", desc, len(opens))
 		}
 	})
